@@ -326,6 +326,22 @@ def _find_binding(target_set: AttributeSet, key: str) -> Binding | None:
     )
 
 
+def _inherits_name(target_set: AttributeSet, key: str) -> bool:
+    """Report names that an inherit clause of the set already defines."""
+    for item in target_set.values:
+        if not isinstance(item, Inherit):
+            continue
+        for name_expr in item.names:
+            name = (
+                name_expr.name
+                if isinstance(name_expr, Identifier)
+                else getattr(name_expr, "value", None)
+            )
+            if name == key:
+                return True
+    return False
+
+
 def _find_named_binding(
     values: Sequence[NixExpression], key: str, *, nested: bool | None = None
 ) -> Binding | None:
@@ -611,6 +627,8 @@ def _set_value_in_attrset(
                     return
             binding.value = value_expr
             return
+        if _inherits_name(target_set, key):
+            raise ValueError(f"Cannot overwrite inherited attribute: {key}")
         target_set[key] = value_expr
         return
 
@@ -658,6 +676,8 @@ def _set_value_in_attrset(
                 return
         existing_binding.value = value_expr
         return
+    if _inherits_name(parent_set, final_key):
+        raise ValueError(f"Cannot overwrite inherited attribute: {final_key}")
     parent_set[final_key] = value_expr
 
 
